@@ -195,15 +195,61 @@ func checkMsg(c MsgCase, cv *cov) (v *evid.Violation) {
 				return
 			}
 		}
+		// EXCEPTION messages built by hand (header from the reference + exception body): first one whose text
+		// is read and whose body is then rejected, then bodies in which a known field is absent or has
+		// another type. Each must come back as an application exception holding exactly what ITS body holds.
+		if c.Type == thrift.EXCEPTION && c.Word == nil && c.Cut < 0 {
+			exception = true
+			var sink base.Base
+			bad := append(append([]byte(nil), want...), 0x0b, 0, 1, 0, 0, 0, 9)
+			bad = append(append(bad, "left-over"...), 0x08, 0, 2, 0, 0, 0, 77, 0x01, 0, 99) // a field of type 1 (VOID) cannot be skipped
+			if _, _, err := thrift.UnmarshalFastMsg(bad, &sink); err == nil {
+				v = evid.Failf("UnmarshalFastMsg of an EXCEPTION message whose body holds a field of type 1 returned nil")
+				return
+			}
+			tid := c.Seq ^ 0x5a5a
+			i32 := func(x int32) []byte { return []byte{byte(x >> 24), byte(x >> 16), byte(x >> 8), byte(x)} }
+			bodies := []struct {
+				b     []byte
+				t     int32
+				m     string
+				about string
+			}{
+				{append(append([]byte{0x08, 0, 2}, i32(tid)...), 0), tid, "", "only the type field"},
+				{[]byte{0}, 0, "", "no field at all"},
+				{[]byte{0x0b, 0, 1, 0, 0, 0, 2, 'o', 'k', 0}, 0, "ok", "only the text field"},
+				{append(append([]byte{0x08, 0, 1, 0, 0, 0, 5, 0x08, 0, 2}, i32(tid)...), 0), tid, "", "field 1 as an i32 (skipped) and the type field"},
+				{append(append([]byte{0x0b, 0, 2, 0, 0, 0, 1, 'x', 0x08, 0, 2}, i32(tid)...), 0), tid, "", "field 2 once as a string (skipped) and once as i32"},
+			}
+			for _, bd := range bodies {
+				msg := append(append([]byte(nil), want...), bd.b...)
+				m, seq, err := thrift.UnmarshalFastMsg(msg, &sink)
+				ae, ok := err.(*thrift.ApplicationException)
+				if !ok {
+					v = evid.Failf("UnmarshalFastMsg of an EXCEPTION message (method of %d bytes; body: %s) returned err=%v (%T), want *ApplicationException", len(name), bd.about, err, err)
+					return
+				}
+				if ae.TypeID() != bd.t || ae.Msg() != bd.m || m != name || seq != c.Seq {
+					v = evid.Failf("UnmarshalFastMsg of an EXCEPTION message (body: %s), read after an EXCEPTION message that was rejected, returned (type %d, text %q, method eq=%v, seq %d); the body holds (type %d, text %q)", bd.about, ae.TypeID(), ae.Msg(), m == name, seq, bd.t, bd.m)
+					return
+				}
+			}
+			if sink.LogID != "" || sink.Extra != nil {
+				v = evid.Failf("UnmarshalFastMsg(EXCEPTION) modified the caller's struct")
+				return
+			}
+		}
 		// marshal / unmarshal of whole messages
 		if c.Payload != nil && c.Word == nil && c.Cut < 0 {
 			pm := c.Payload.model()
 			px := newFC(c.Payload.Kind, &pm)
 			msg, err := thrift.MarshalFastMsg(name, c.Type, c.Seq, px)
+			if err != nil && name == "" {
+				// the convenience function refuses an empty method name (not part of the statement); the envelope
+				// itself can carry it: build the message from the reference header and the marshalled payload
+				msg, err = append(append([]byte(nil), want...), thrift.FastMarshal(px)...), nil
+			}
 			if err != nil {
-				if name == "" {
-					return // an empty method name is documented to be refused; not part of the statement
-				}
 				v = evid.Failf("MarshalFastMsg: %v", err)
 				return
 			}
@@ -243,12 +289,19 @@ func checkMsg(c MsgCase, cv *cov) (v *evid.Violation) {
 				}
 				// the exception that is sent may also be a protocol exception: built directly, or wrapping the
 				// error of a failed read (what a server has in hand when decoding the request failed)
-				for k, pe := range []*thrift.ProtocolException{
-					thrift.NewProtocolException(pm.i32, pm.s[0]),
-					thrift.NewProtocolExceptionWithErr(errors.New(pm.s[0])),
-					thrift.NewProtocolExceptionWithErr(fmt.Errorf("read request: %w", io.ErrUnexpectedEOF)),
-				} {
-					wantT, wantM := pe.TypeID(), pe.Msg()
+				mkPEs := func() []*thrift.ProtocolException {
+					return []*thrift.ProtocolException{
+						thrift.NewProtocolException(pm.i32, pm.s[0]),
+						thrift.NewProtocolExceptionWithErr(errors.New(pm.s[0])),
+						thrift.NewProtocolExceptionWithErr(fmt.Errorf("read request: %w", io.ErrUnexpectedEOF)),
+					}
+				}
+				twins := mkPEs() // asked for their type and text; the ones that are sent are not touched before
+				for k, pe := range mkPEs() {
+					wantT, wantM := twins[k].TypeID(), twins[k].Msg()
+					if name == "" {
+						break
+					}
 					msg2, err := thrift.MarshalFastMsg(name, thrift.EXCEPTION, c.Seq, pe)
 					if err != nil {
 						v = evid.Failf("MarshalFastMsg of a protocol exception (variant %d): %v", k, err)
